@@ -89,6 +89,14 @@ func (fr *frame) unop(instr *ssa.UnOp, x Value) Value {
 		}
 		return v
 	case token.MUL:
+		// a section that holds only read locks runs concurrently with other such sections:
+		// every memory read in it is a point where another goroutine may run (delay-bounded,
+		// with delay_preempt); sections under an exclusive lock and unsynchronised code are not split
+		if fr.g != nil && fr.g.rlocks > 0 && fr.g.xlocks == 0 {
+			v := fr.load(x)
+			fr.w.sched.pointAny(fr.g) // after the read: what was read may be stale when it is used
+			return v
+		}
 		return fr.load(x)
 	case token.NOT:
 		return smt.Not(x.(*smt.Term))
